@@ -463,7 +463,12 @@ where
         m: &AssignedBigUint<F>,
     ) -> Result<AssignedBigUint<F>, Error> {
         if n == 0 {
-            return self.assign_fixed_biguint(layouter, BigUint::one());
+            let one = self.assign_fixed_biguint(layouter, BigUint::one())?;
+            return Ok(self.div_rem(layouter, &one, m)?.1);
+        }
+        if n == 1 {
+            // No modular multiplication takes place below, reduce explicitly.
+            return Ok(self.div_rem(layouter, x, m)?.1);
         }
 
         let mut n = n;
